@@ -176,9 +176,12 @@ def gen_job(seed, profile="general"):
         lst.append({"name": "move", "fx": "max", "skip": [False] + [True] * (1 if dim == 2 else 2) if r.random() < 0.5 else [False] * dim, "value": 0.0, "ramped": True})
         if r.random() < 0.3:
             lst.append({"name": "overlap", "fx": "max", "fy": "max", "mode": "and", "skip": [True, False] + ([True] if dim == 3 else []), "value": 0.0})
-        if fkind == "Mixed3" and r.random() < 0.5:
-            lst.append({"name": "pfix", "field": 1, "fx": "min", "value": 0.0})
         bc["list"] = lst
+    if fkind == "Mixed3" and r.random() < 0.5:
+        # a boundary on a dual field (pressure or volume ratio of one cell) with a non-zero value
+        fld = r.choice([1, 2])
+        val = rfloat(r, -0.05, 0.05) if fld == 1 else rfloat(r, 0.97, 1.03)
+        bc["extra"] = [{"name": "dualfix", "field": fld, "points": [0], "value": val}]
     doc["bc"] = bc
     steps = []
     for j in range(nsteps):
